@@ -13,9 +13,11 @@ for lg in logs:
             k = json.loads(m.group(3))
             key = (k["optimizer"], k["exception"], k["function"])
             crash[key] = crash.get(key, 0) + int(m.group(1))
-        m = re.match(r"PAIR (\w+) (\w+) (\d+)/(\d+) (.*)$", ln.strip())
+        m = re.match(r"(?:PAIR|RARE) (\w+) (\w+) (\d+)/(\d+) (.*)$", ln.strip())
         if m:
-            pairs[(m.group(1), m.group(2))] = (int(m.group(3)), int(m.group(4)), m.group(5))
+            k = (m.group(1), m.group(2))
+            c0, n0, _ = pairs.get(k, (0, 0, ""))
+            pairs[k] = (c0 + int(m.group(3)), n0 + int(m.group(4)), m.group(5))
 HAND = [
   {"property": "C14",
    "match": {"clause": "C14.bounds", "type": "permutation variable mixed with other variables", "exception": "ValueError"},
@@ -41,8 +43,10 @@ for (opt, exc, fn), n in sorted(crash.items()):
         findings.append({"property": "C06", "match": {"clause": "C06.crash", "optimizer": opt, "exception": exc, "function": fn, "space": "continuous"},
                          "what": f"{opt}: {exc} in {fn} on a valid continuous task with a valid configuration ({WHY.get(exc, 'internal error')}); input dependent (cycle budget 1, 1-D task, population not a multiple of a group size, degenerate costs)"})
 for (opt, enc), (c, n, top) in sorted(pairs.items()):
+    if c * 25 < n:
+        continue        # below 4 %: too rare to ever look wholesale in 13 runs; not listed
     findings.append({"property": "C06", "match": {"clause": "C06.wholesale", "optimizer": opt, "space": enc},
-                     "what": f"{opt} fails on {enc}-coded tasks in {c}/{n} surveyed runs ({top[:110]}): the (optimizer, encoding) pair does not work on the pinned tree"})
+                     "what": f"{opt} fails on {enc}-coded tasks in {c}/{n} surveyed runs ({top[:110]})" + (": the (optimizer, encoding) pair does not work on the pinned tree" if c * 2 >= n else ": input dependent, can reach half of a small sample")})
 fixed = []
 log = subprocess.run(["git", "-C", "/repo", "log", "--reverse", "--format=%h %s"], capture_output=True, text=True).stdout.splitlines()
 PROP = [("seed", "C07"), ("cycle counter", "C08"), ("get_partner_index", "C07"), ("maximised multi-objective", "C06"), ("PermutationVariable", "C13"),
